@@ -289,6 +289,8 @@ class TrafficChecker:
         self.call = None
         peer = 1 - cur
         mine = [e for e in log if e["from"] == cur]
+        if op[0] == "send":     # only this call's payload (the log may still hold earlier transmissions)
+            mine = [e for e in mine if e["data"] == self.norm(op[1])]
         if res[0] != 0:
             return None
         delivered = any(e["ok"] for e in mine)
@@ -534,7 +536,7 @@ def gen_traffic(r, kinds):
                 ops += [("oracle", "")]
             elif r.random() < 0.2 and pending[recv] < 2 and 1 <= n <= 32:
                 pl2 = bytes(r.randrange(256) for _ in range(r.randrange(1, 33)))
-                ops += [("send_list", [pl, pl2] if r.random() < 0.5 else (pl, pl2), False, 0, False)]
+                ops += [("send_list", [pl, pl2] if r.random() < 0.5 else (pl, pl2), False, 0, False), ("air",)]
                 pending[recv] += 2
             else:
                 ops += [("send", pl, r.random() < 0.15, 0, False), ("air",)]
